@@ -1053,6 +1053,122 @@ let emit tier cfgs seed =
       "numeric_limits primary template", "!etl::numeric_limits<int*>::is_specialized && etl::numeric_limits<int*>::digits == 0 && !etl::numeric_limits<zb::B>::is_specialized && !etl::numeric_limits<zb::B>::is_signed && etl::numeric_limits<zb::B>::radix == 0 && etl::numeric_limits<int*>::max() == nullptr && etl::numeric_limits<int const volatile>::max() == std::numeric_limits<int const volatile>::max() && std::is_same_v<decltype(etl::numeric_limits<short const>::min()), short> && etl::numeric_limits<zb::B>::round_style == etl::round_toward_zero && etl::numeric_limits<zb::B>::has_denorm == etl::denorm_absent";
       "float_round_style / float_denorm_style", "static_cast<int>(etl::round_indeterminate) == static_cast<int>(std::round_indeterminate) && static_cast<int>(etl::round_toward_zero) == static_cast<int>(std::round_toward_zero) && static_cast<int>(etl::round_to_nearest) == static_cast<int>(std::round_to_nearest) && static_cast<int>(etl::round_toward_infinity) == static_cast<int>(std::round_toward_infinity) && static_cast<int>(etl::round_toward_neg_infinity) == static_cast<int>(std::round_toward_neg_infinity) && static_cast<int>(etl::denorm_indeterminate) == static_cast<int>(std::denorm_indeterminate) && static_cast<int>(etl::denorm_absent) == static_cast<int>(std::denorm_absent) && static_cast<int>(etl::denorm_present) == static_cast<int>(std::denorm_present)";
     ];
+  (* ---- INVOKE (fix-miss round 5): the case analysis of detail::INVOKE / invoke_impl (coq/C15/ModelInvoke.v) over
+          callables x qualifications of the callable type x object forms x argument lists.  The extracted model
+          (invoke_m) / specification (std_invoke_q, [func.require]) select the INVOKE expression; the expression is
+          printed as one of the question templates zi::q_* and the compiler answers it (well-formed? type?).
+            corr    : etl::invoke_result / is_invocable / is_invocable_r == the answer to the MODEL's question
+            specval : std::...                                          == the answer to the SPEC's question
+            prop    : etl == std (invoke_result, is_invocable, is_invocable_r, invocable, regular_invocable)
+          Classes of namespace zi stand for descriptors with cid 901..909 (inheritance and reference_wrapper are
+          outside the universe: the oracles base_of / refwrap of the model are the tables below). *)
+  line [ "H"; "namespace zi { struct S { int d; long get() const; int f(int); int h() &&; int g(int) const& noexcept; }; struct D : S { }; struct PD : private S { }; struct SP { S& operator*() const; }; struct SPR { S& operator*() &&; S const& operator*() const& = delete; }; union U { int a; float b; int uf(); }; struct Fun { int operator()(int) const; void operator()(char*) &&; long operator()(int, int) noexcept; }; }" ];
+  line [ "H"; "namespace zi { template <class T> T ret(); template <class T> void use(T); struct q_none { }; template <class Q> constexpr bool has = requires { typename Q::type; }; template <class, class F, class... A> struct call_ { }; template <class F, class... A> struct call_<std::void_t<decltype(std::declval<F>()(std::declval<A>()...))>, F, A...> { using type = decltype(std::declval<F>()(std::declval<A>()...)); }; template <class F, class... A> using q_call = call_<void, F, A...>; template <int O, class T1> struct objx; template <class T1> struct objx<0, T1> { template <class X = T1> static auto get() -> decltype(std::declval<X>()); }; template <class T1> struct objx<1, T1> { template <class X = T1> static auto get() -> decltype(std::declval<std::remove_reference_t<X>&>().get()); }; template <class T1> struct objx<2, T1> { template <class X = T1> static auto get() -> decltype(*std::declval<X>()); }; }" ];
+  line [ "H"; "namespace zi { template <class, int O, class PM, class T1, class... A> struct memfn_ { }; template <int O, class PM, class T1, class... A> struct memfn_<std::void_t<decltype((objx<O, T1>::get().*std::declval<PM&>())(std::declval<A>()...))>, O, PM, T1, A...> { using type = decltype((objx<O, T1>::get().*std::declval<PM&>())(std::declval<A>()...)); }; template <int O, class PM, class T1, class... A> using q_memfn = memfn_<void, O, PM, T1, A...>; template <class, int O, class PM, class T1> struct memdata_ { }; template <int O, class PM, class T1> struct memdata_<std::void_t<decltype(objx<O, T1>::get().*std::declval<PM&>())>, O, PM, T1> { using type = decltype(objx<O, T1>::get().*std::declval<PM&>()); }; template <int O, class PM, class T1> using q_memdata = memdata_<void, O, PM, T1>; }" ];
+  line [ "H"; "namespace zi { template <class R, class Q> constexpr bool agree = [] { if constexpr (has<R> != has<Q>) { return false; } else if constexpr (has<Q>) { return std::is_same_v<typename R::type, typename Q::type>; } else { return true; } }(); template <class T, class R> constexpr bool use_ok = requires { use<R>(ret<T>()); }; template <class Q, class R, bool V> constexpr bool conv_m = [] { if constexpr (!has<Q>) { return false; } else if constexpr (V) { return true; } else { return use_ok<typename Q::type, R>; } }(); template <class Q, class R, bool V> constexpr bool conv_s = [] { if constexpr (!has<Q>) { return false; } else if constexpr (V) { return true; } else { return std::is_convertible_v<typename Q::type, R>; } }(); }" ];
+  let icls id data = { (pc (nz id)) with c_data = data } in
+  let cS = icls 901 true and cD = icls 902 true and cRWS = icls 903 false and cRWD = icls 904 false
+  and cRWCS = icls 905 false and cSP = icls 906 false and cPD = icls 907 true and cU = icls 908 true
+  and cFun = icls 909 false and cSPR = icls 910 false in
+  let icid d = int_of_string (str_of_n d.cid) in
+  let iname ns d = match icid d with
+    | 901 -> "zi::S" | 902 -> "zi::D" | 903 -> ns ^ "::reference_wrapper<zi::S>" | 904 -> ns ^ "::reference_wrapper<zi::D>"
+    | 905 -> ns ^ "::reference_wrapper<zi::S const>" | 906 -> "zi::SP" | 907 -> "zi::PD" | 908 -> "zi::U"
+    | 909 -> "zi::Fun" | 910 -> "zi::SPR" | _ -> "z::" ^ cls_name "C" d in
+  let rec icxx ns (t : cty) : string =
+    match t with
+    | Ptr u -> "z::P<" ^ icxx ns u ^ ">"
+    | LRef u -> "z::LR<" ^ icxx ns u ^ ">"
+    | RRef u -> "z::RR<" ^ icxx ns u ^ ">"
+    | Arr (e, Some n) -> sp "z::A<%s, %s>" (icxx ns e) (str_of_n n)
+    | Arr (e, None) -> "z::AU<" ^ icxx ns e ^ ">"
+    | Fn (r, args, c, v, q, ne, va) ->
+        sp "z::FN%s%s%d%s%s<%s>" (b01 c) (b01 v) (rq_code q) (b01 ne) (b01 va) (String.concat ", " (List.map (icxx ns) (r :: args)))
+    | MemPtr (d, u) -> sp "z::MP<%s, %s>" (icxx ns u) (iname ns d)
+    | Class d -> iname ns d
+    | Cv (c, v, u) -> (if c && v then "z::CVQ<" else if c then "z::CQ<" else "z::VQ<") ^ icxx ns u ^ ">"
+    | _ -> cxx t in
+  (* readable key: the usual declarator syntax is not needed, the alias spelling is unambiguous *)
+  (* is_base_of_v<B, T> between the classes of namespace zi (false for the union U and itself) *)
+  let base_tab = [ 901, 901; 901, 902; 901, 907; 902, 902; 903, 903; 904, 904; 905, 905; 906, 906; 907, 907; 909, 909; 910, 910 ] in
+  let base_of (b : clsdesc) (t : cty) = match t with Class d -> List.mem (icid b, icid d) base_tab | _ -> false in
+  let refwrap (t : cty) = match t with Class d -> List.mem (icid d) [ 903; 904; 905 ] | _ -> false in
+  let ocode = function ODirect -> 0 | ORefWrap -> 1 | ODeref -> 2 in
+  let qcxx ns = function
+    | IQNone -> "zi::q_none"
+    | IQCall (f, a) -> sp "zi::q_call<%s>" (String.concat ", " (List.map (icxx ns) (f :: a)))
+    | IQMemFn (pm, o, t1, a) -> sp "zi::q_memfn<%d, %s>" (ocode o) (String.concat ", " (List.map (icxx ns) (pm :: t1 :: a)))
+    | IQMemData (pm, o, t1) -> sp "zi::q_memdata<%d, %s, %s>" (ocode o) (icxx ns pm) (icxx ns t1) in
+  let s_ = Class cS and d_ = Class cD and u_ = Class cU in
+  let cq t = qual true false t and vq t = qual false true t and cvq t = qual true true t in
+  let long_ = Arith ALong in
+  let pmf_get = MemPtr (cS, fn ~c:true long_ []) and pmf_f = MemPtr (cS, fn int_ [ int_ ])
+  and pmf_h = MemPtr (cS, fn ~q:RQrref int_ []) and pmf_g = MemPtr (cS, fn ~c:true ~q:RQlref ~ne:true int_ [ int_ ])
+  and pmd = MemPtr (cS, int_) and pmd_c = MemPtr (cS, cq int_) and pm_u = MemPtr (cU, int_)
+  and pmf_u = MemPtr (cU, fn int_ []) and pmd_d = MemPtr (cD, int_) in
+  let qforms_all f = [ f; cq f; vq f; cvq f; LRef f; LRef (cq f); LRef (vq f); LRef (cvq f); RRef f; RRef (cq f); RRef (cvq f) ] in
+  let qforms_some f = [ f; cq f; LRef (cq f); RRef (vq f); LRef f ] in
+  let objs =
+    [ s_; LRef s_; LRef (cq s_); RRef s_; cq s_; LRef (vq s_); RRef (cq s_); Ptr s_; Ptr (cq s_); LRef (cq (Ptr s_)); cvq (Ptr s_);
+      d_; LRef d_; RRef (cq d_); Ptr d_; LRef (Ptr (cq d_));
+      Class cRWS; LRef (Class cRWS); LRef (cq (Class cRWS)); RRef (Class cRWS); Class cRWD; LRef (cq (Class cRWD)); Class cRWCS; LRef (Class cRWCS);
+      LRef (Class cPD); Ptr (Class cPD); Class cSP; LRef (cq (Class cSP)); Class cSPR; LRef (Class cSPR); int_; Ptr int_;
+      u_; LRef u_; LRef (cq u_); Ptr u_; Arr (s_, some_n 2); LRef (Arr (s_, some_n 2)); LRef (Arr (cq s_, some_n 2)); Ptr (Ptr s_) ] in
+  let charp = Ptr (Arith AChar) in
+  let rests_of f = match f with
+    | MemPtr (_, Fn (_, [], _, _, _, _, _)) -> [ []; [ int_ ] ]
+    | MemPtr (_, Fn (_, _, _, _, _, _, _)) -> if tier = "quick" then [ [ int_ ]; [ charp ]; [] ] else [ [ int_ ]; [ long_ ]; [ charp ]; []; [ int_; int_ ] ]
+    | _ -> [ []; [ int_ ] ] in
+  let combos =
+    List.concat_map (fun (f, qf) ->
+        (* quick tier: the two callables of the full cross meet every object form; the others half of them, rotating with the seed *)
+        let objs' = if tier = "quick" && qf f != qforms_all f && List.length (qf f) < 11 then List.filteri (fun i _ -> i mod 2 = seed mod 2) objs else objs in
+        List.concat_map (fun fq -> List.concat_map (fun o -> List.map (fun r -> (f, fq, o :: r)) (rests_of f)) objs') (qf f))
+      [ pmf_get, qforms_all; pmd, qforms_all; pmf_f, qforms_some; pmf_h, qforms_some; pmf_g, qforms_some; pmd_c, qforms_some;
+        pm_u, qforms_some; pmf_u, qforms_some; pmd_d, qforms_some ]
+    @ List.concat_map (fun f ->
+        List.concat_map (fun fq -> List.map (fun a -> (f, fq, a)) [ []; [ int_ ]; [ charp ]; [ int_; int_ ]; [ s_ ]; [ LRef int_ ]; [ Class cRWS ] ])
+          (List.filter wf (dedup (qforms_all f))))
+      [ Class cFun; Ptr (fn int_ [ int_ ]); LRef (fn int_ [ int_ ]); fn int_ [ int_ ]; int_; Ptr (fn ~ne:true ~va:true long_ []) ]
+    (* no arguments at all *)
+    @ List.map (fun fq -> (pmd, fq, [])) (qforms_some pmd) @ List.map (fun fq -> (pmf_get, fq, [])) (qforms_some pmf_get) in
+  let rs = [ Void; long_; LRef int_; cq Void; RRef int_; LRef (cq long_) ] in
+  let is_union_pm f = match f with MemPtr (d, _) -> icid d = 908 | _ -> false in
+  List.iter (fun (f, fq, args) ->
+      if wf fq && List.for_all wf args then begin
+        let key = String.concat ", " (List.map (icxx "etl") (fq :: args)) in
+        let la ns = String.concat ", " (List.map (icxx ns) (fq :: args)) in
+        let qm = invoke_m base_of refwrap fq args and qs = std_invoke_q base_of refwrap fq args in
+        let conj = String.concat " && " in
+        obl "corr" "INVOKE (case analysis)" key
+          (conj (sp "zi::agree<etl::invoke_result<%s>, %s>" (la "etl") (qcxx "etl" qm)
+                 :: sp "etl::is_invocable_v<%s> == zi::has<%s>" (la "etl") (qcxx "etl" qm)
+                 :: sp "etl::is_invocable<%s>::value == zi::has<%s>" (la "etl") (qcxx "etl" qm)
+                 :: List.map (fun r -> sp "etl::is_invocable_r_v<%s, %s> == zi::conv_m<%s, %s, %s>" (icxx "etl" r) (la "etl") (qcxx "etl" qm) (icxx "etl" r) (bs (is_void_m r))) rs));
+        (* libstdc++ 12 predates LWG 3655 for pointers to member FUNCTIONS of a union applied to the union
+           itself (it asks is_base_of only): no reference answer there *)
+        let std_na = is_union_pm f && (match qs with IQMemFn (_, ODirect, _, _) -> true | _ -> false) in
+        if not std_na then begin
+          obl "specval" "INVOKE (case analysis)" key
+            (conj (sp "zi::agree<std::invoke_result<%s>, %s>" (la "std") (qcxx "std" qs)
+                   :: sp "std::is_invocable_v<%s> == zi::has<%s>" (la "std") (qcxx "std" qs)
+                   :: List.map (fun r -> sp "std::is_invocable_r_v<%s, %s> == zi::conv_s<%s, %s, %s>" (icxx "std" r) (la "std") (qcxx "std" qs) (icxx "std" r) (bs (std_is_void r))) rs));
+          obl "prop" "INVOKE (etl == std)" key
+            (conj (sp "zi::agree<etl::invoke_result<%s>, std::invoke_result<%s>>" (la "etl") (la "std")
+                   :: sp "etl::is_invocable_v<%s> == std::is_invocable_v<%s>" (la "etl") (la "std")
+                   :: sp "etl::invocable<%s> == std::invocable<%s>" (la "etl") (la "std")
+                   :: sp "etl::regular_invocable<%s> == std::regular_invocable<%s>" (la "etl") (la "std")
+                   :: List.map (fun r -> sp "etl::is_invocable_r_v<%s, %s> == std::is_invocable_r_v<%s, %s>" (icxx "etl" r) (la "etl") (icxx "std" r) (la "std")) rs))
+        end;
+        (* the invariance theorems, on the library itself: the qualification of a pointer-to-member callable
+           changes nothing (C15_invoke_cv_invariant / C15_invoke_ref_invariant) *)
+        if callable_is_memptr f && fq <> f then
+          obl "corr" "INVOKE (qualification of the callable)" key
+            (sp "zi::agree<etl::invoke_result<%s>, etl::invoke_result<%s>> && etl::is_invocable_v<%s> == etl::is_invocable_v<%s>"
+               (la "etl") (String.concat ", " (List.map (icxx "etl") (f :: args))) (la "etl") (String.concat ", " (List.map (icxx "etl") (f :: args))));
+        if qm <> qs then line [ "M"; "INVOKE (case analysis)"; key; qcxx "etl" qm; qcxx "std" qs ]
+      end)
+    combos;
   (* ---- ill-formed instantiations (each its own TU): expect 1 = compiles, 0 = rejected *)
   let neg leg trait key expect snippet = line [ "N"; leg; trait; key; (if expect then "1" else "0"); snippet ] in
   List.iter (fun (nm, t) ->
